@@ -67,6 +67,10 @@ type world struct {
 	starts     map[int]int64           // seq -> event counter at call start
 	kind       string
 	closeDelay time.Duration
+	dialMu     sync.Mutex
+	dialErrs   []error       // errors for the next dials (consumed in order)
+	dialGate   chan struct{} // non-nil: dials with a pending error wait for it
+	dialCount  atomic.Int64
 	seen       map[int]chan struct{}
 	nrep       int
 }
@@ -278,15 +282,43 @@ func (s scen) bound() int {
 	return 3
 }
 
+// dialFault returns the scripted error for this dial, if any.
+func (w *world) dialFault(ctx context.Context) error {
+	w.dialCount.Add(1)
+	w.dialMu.Lock()
+	var err error
+	if len(w.dialErrs) > 0 {
+		err = w.dialErrs[0]
+		w.dialErrs = w.dialErrs[1:]
+	}
+	gate := w.dialGate
+	w.dialMu.Unlock()
+	if err != nil && gate != nil {
+		select {
+		case <-gate:
+		case <-ctx.Done():
+		}
+	}
+	return err
+}
+
 func makeTransport(w *world, s scen) exch {
 	if s.Transport == "reuse" {
 		return transport.NewReuseConnTransport(transport.ReuseConnOpts{
-			DialContext: func(ctx context.Context) (transport.NetConn, error) { return w.newConn(), nil },
+			DialContext: func(ctx context.Context) (transport.NetConn, error) {
+				if err := w.dialFault(ctx); err != nil {
+					return nil, err
+				}
+				return w.newConn(), nil
+			},
 			IdleTimeout: 30 * time.Second,
 		})
 	}
 	return transport.NewPipelineTransport(transport.PipelineOpts{
 		DialContext: func(ctx context.Context) (transport.DnsConn, error) {
+			if err := w.dialFault(ctx); err != nil {
+				return nil, err
+			}
 			return transport.NewDnsConn(transport.TraditionalDnsConnOpts{WithLengthHeader: w.stream, IdleTimeout: 30 * time.Second, MaxConcurrentQuery: s.L}, w.newConn()), nil
 		},
 		MaxConcurrentQueryWhileDialing: s.L,
@@ -724,6 +756,80 @@ func scriptInflight(s scen) {
 	}
 }
 
+// scriptDialFail: m callers are queued on ONE pipelined connection that is still
+// dialing; that dial then fails with a scripted error. Only the caller the
+// connection was opened for may report the failure; the joiners (for whom it
+// was an already existing connection) must be retried on a fresh connection,
+// which works.
+func scriptDialFail(s scen) {
+	caselog.Log(s)
+	setup(s)
+	w := newWorld(s.Stream)
+	w.kind = s.Transport
+	var derr error
+	switch s.How {
+	case "refused":
+		derr = errors.New("harness: connection refused")
+	case "deadline":
+		derr = context.DeadlineExceeded // what a dialer returns when its own dial timeout fires
+	case "canceled":
+		derr = context.Canceled
+	case "wrapped-deadline":
+		derr = fmt.Errorf("dial tcp: %w", context.DeadlineExceeded)
+	}
+	w.dialErrs = []error{derr}
+	w.dialGate = make(chan struct{})
+	t := makeTransport(w, s)
+	defer t.Close()
+	pt := t.(*transport.PipelineTransport)
+	m := s.Probes
+	var wg sync.WaitGroup
+	res := make([]callRes, m)
+	for i := range res {
+		wg.Add(1)
+		go func(i int) {
+			defer wg.Done()
+			res[i] = doCall(w, t, 8*time.Second, nil)
+		}(i)
+	}
+	// wait until all m are queued on the one dialing connection
+	deadline := time.Now().Add(3 * time.Second)
+	queued := false
+	for time.Now().Before(deadline) {
+		_, cs := pt.VerifSnapshot()
+		if len(cs) == 1 && cs[0].Dialing && cs[0].LazyReserved == m {
+			queued = true
+			break
+		}
+		time.Sleep(100 * time.Microsecond)
+	}
+	close(w.dialGate)
+	wg.Wait()
+	if !queued {
+		rep.Count("dialfail_scenarios_not_judged(callers not queued on one dial)", 1)
+		return
+	}
+	rep.Count("dialfail_scenarios", 1)
+	failed := 0
+	var errs []string
+	for _, r := range res {
+		rep.Eval(1)
+		if r.err != nil {
+			failed++
+			errs = append(errs, r.err.Error())
+		} else {
+			rep.Count("calls_ok", 1)
+		}
+	}
+	wit := map[string]any{"scenario": s, "callers": m, "failed": failed, "errors": errs, "dials": w.dialCount.Load()}
+	if failed > 1 {
+		rep.Violation("joiner-of-failed-dial-not-retried-"+s.How, fmt.Sprintf("%d of %d calls queued on a connection whose dial failed (%v) reported failure; only the one call the connection was opened for may, the others must be retried on a fresh connection (which works)", failed, m, derr), wit)
+	} else {
+		rep.Nontrivial(fmt.Sprintf("dialfail|%s|L%d|m%d|failed%d", s.How, s.L, m, failed))
+		rep.Count("dialfail_joiners_retried_ok", int64(m-1))
+	}
+}
+
 func main() {
 	rep = evid.New("C08", "fault_enumeration")
 	caselog = evid.OpenCaseLog()
@@ -750,6 +856,8 @@ func main() {
 				scriptStream(c.Scenario)
 			case "inflight":
 				scriptInflight(c.Scenario)
+			case "dialfail":
+				scriptDialFail(c.Scenario)
 			default:
 				scriptPool(c.Scenario)
 			}
@@ -796,6 +904,13 @@ func main() {
 		for k := 1; k <= x.L+2; k++ {
 			for r := 0; r < rep.Pick(3, 20); r++ {
 				scriptInflight(scen{Transport: x.t, Stream: x.stream, L: x.L, Script: "inflight", Probes: k, Seed: rng.Int63n(1 << 40), Procs: procs[rng.Intn(3)], Perturb: rng.Intn(2) == 0, CloseMs: []int{0, 2, 20}[r%3]})
+			}
+		}
+	}
+	for _, how := range []string{"refused", "deadline", "canceled", "wrapped-deadline"} {
+		for _, m := range []int{2, 3, 8} {
+			for r := 0; r < rep.Pick(2, 10); r++ {
+				scriptDialFail(scen{Transport: "pipeline", Stream: r%2 == 0, L: 8, Script: "dialfail", How: how, Probes: m, Seed: rng.Int63n(1 << 40), Procs: procs[rng.Intn(3)], Perturb: rng.Intn(2) == 0})
 			}
 		}
 	}
